@@ -2,6 +2,7 @@ import DimodProofs.GenProofs
 import DimodProofs.MultComplete
 import DimodProofs.RandomGen
 import DimodProofs.GenProofs2
+import DimodProofs.GenProofs3
 
 /-! # C17 — problem generators encode exactly the relation they document
 
@@ -651,5 +652,244 @@ example : (quadraticAssignment [[0, 1], [2, 0]] [[0, 3], [5, 0]]).map (fun q => 
 example : (bpsp [.str "a", .str "b", .str "a", .str "b"]).map List.length = some 3 := by decide +kernel
 example : bpsp [.str "a", .str "a", .str "a", .str "b"] = none := by decide +kernel
 example : (magicSquare 2 2).map (fun q => q.cons.length) = some 7 := by decide +kernel
+
+/-! ## round 7: anti-crossing, frustrated loops, chimera anticluster, MIMO, one-bit multiplier -/
+
+theorem anti_crossing_clique_refuses_iff (n : Nat) : acClique n = none ↔ (n % 2 ≠ 0 ∨ n < 6) := by
+  unfold acClique; split <;> simp_all
+
+/-- **documented biases**: the calls are exactly: `−1` on every pair of the clique `[0, N)`, `−1` on `v ~ v+N`, `+1` on every
+    clique variable, `−1` on every attached variable (`N = num_variables / 2`); variable 1 is then reset to 0 -/
+theorem anti_crossing_clique_calls (hf : Nat) (t : PTerm Label) :
+    t ∈ acCliqueAdds hf ↔
+      ((∃ n m, n < m ∧ m < hf ∧ t = PTerm.quad (iv n) (iv m) (-1)) ∨ (∃ n, n < hf ∧ t = PTerm.quad (iv n) (iv (n + hf)) (-1))
+       ∨ (∃ n, n < hf ∧ t = PTerm.lin (iv n) 1) ∨ (∃ n, n < hf ∧ t = PTerm.lin (iv (n + hf)) (-1))) := by
+  unfold acCliqueAdds acCliqueRow
+  simp only [List.mem_flatMap, List.mem_range, List.mem_append, List.mem_map, List.mem_cons, List.not_mem_nil, or_false]
+  constructor
+  · rintro ⟨n, hn, ⟨k, hk, rfl⟩ | rfl | rfl | rfl⟩
+    · exact Or.inl ⟨n, n + 1 + k, by omega, by omega, rfl⟩
+    · exact Or.inr (Or.inl ⟨n, hn, rfl⟩)
+    · exact Or.inr (Or.inr (Or.inl ⟨n, hn, rfl⟩))
+    · exact Or.inr (Or.inr (Or.inr ⟨n, hn, rfl⟩))
+  · rintro (⟨n, m, h1, h2, rfl⟩ | ⟨n, hn, rfl⟩ | ⟨n, hn, rfl⟩ | ⟨n, hn, rfl⟩)
+    · have e : n + 1 + (m - (n + 1)) = m := by omega
+      exact ⟨n, (by omega), Or.inl ⟨m - (n + 1), (by omega), (by rw [e])⟩⟩
+    · exact ⟨n, hn, Or.inr (Or.inl rfl)⟩
+    · exact ⟨n, hn, Or.inr (Or.inr (Or.inl rfl))⟩
+    · exact ⟨n, hn, Or.inr (Or.inr (Or.inr rfl))⟩
+
+/-- the returned model: the sum of the calls, minus the bias `+1` that `set_linear(1, 0)` removes from variable 1 -/
+theorem anti_crossing_clique_energy (n : Nat) (b : Bq Label) (h : acClique n = some b) (x : Label → Rat) (hx : ∀ v, x v * x v = 1) :
+    b.energy x = evalBag x (acCliqueAdds (n / 2)) - x (iv 1) := by
+  unfold acClique at h
+  split at h
+  · simp at h
+  · rename_i hn
+    simp only [Option.some.injEq] at h; subst h
+    have hhf : 2 ≤ n / 2 := by omega
+    rw [energy_setLinear, apply_energy _ x (by simpa [Bq.empty, Dom] using hx), lookup_apply _ rfl]
+    unfold acCliqueAdds
+    rw [linCoef_acRows _ hhf, count_one_range]
+    simp only [hhf, if_true, Bq.empty, Bq.energy, Bq.linSum, Bq.quadSum, Bq.lookupKey]
+    grind
+
+/-- **"The ground state of this problem is therefore +1 for all variables"**: no spin state has a lower energy -/
+theorem anti_crossing_clique_ground_state (n : Nat) (b : Bq Label) (h : acClique n = some b) (x : Label → Rat)
+    (hx : ∀ v, x v = 1 ∨ x v = -1) : b.energy (fun _ => 1) ≤ b.energy x := by
+  rw [anti_crossing_clique_energy n b h x (fun v => pm_sq _ (hx v)),
+      anti_crossing_clique_energy n b h (fun _ => 1) (fun _ => by grind)]
+  have h1 := acCliqueAdds_bound x hx (n / 2) (List.range (n / 2))
+  have h2 := pm_le _ (hx (iv 1))
+  unfold acCliqueAdds; grind
+
+theorem anti_crossing_loops_refuses_iff (n : Nat) : acLoops n = none ↔ (n % 4 ≠ 0 ∨ n < 8) := by
+  unfold acLoops; split <;> simp_all
+
+/-- **every loop is frustrated** (both `plant_solution` branches, as functions of the recorded cycle and draw): at every spin
+    state the loop contributes at least `−(L − 2)`, and exactly that at the all-(+1) state -/
+theorem frustrated_loop_each_loop (x : Label → Rat) (hx : ∀ v, x v = 1 ∨ x v = -1) (c : List Label) :
+    (∀ idx, idx < c.length → 2 - (c.length : Rat) ≤ evalBag x (flPlanted c idx)
+        ∧ evalBag (fun _ => (1 : Rat)) (flPlanted c idx) = 2 - (c.length : Rat))
+    ∧ (0 < c.length → 2 - (c.length : Rat) ≤ evalBag x (flUnplanted c)
+        ∧ evalBag (fun _ => (1 : Rat)) (flUnplanted c) = 2 - (c.length : Rat)) :=
+  ⟨fun idx h => flPlanted_bound x hx c idx h, fun h => flUnplanted_bound x hx c h⟩
+
+/-- **planted solution**: for any graph and any recorded good cycles (anti-ferromagnetic position inside the loop), the
+    all-(+1) state has energy `−Σ (L − 2)` and no spin state is below it -/
+theorem frustrated_loop_planted_ground_state (nodes : List Label) (edges : List (Label × Label))
+    (cycles : List (List Label × Option Nat)) (h : LoopsOK cycles) (x : Label → Rat) (hx : ∀ v, x v = 1 ∨ x v = -1) :
+    evalBag (fun _ => (1 : Rat)) (frustratedLoop nodes edges cycles) = - loopBound cycles
+    ∧ evalBag (fun _ => (1 : Rat)) (frustratedLoop nodes edges cycles) ≤ evalBag x (frustratedLoop nodes edges cycles) := by
+  unfold frustratedLoop
+  simp only [evalBag_append, evalBag_zeros, evalBag_zeroQuads]
+  have hb := loops_bound x hx cycles h
+  constructor <;> grind
+
+/-- the deprecated `planted_solution` gauge: the gauged model at `x` is the ungauged one at `p·x`; so `p` itself is a ground
+    state of the gauged model -/
+theorem frustrated_loop_gauge (nodes : List Label) (edges : List (Label × Label)) (cycles : List (List Label × Option Nat))
+    (h : LoopsOK cycles) (p x : Label → Rat) (hp : ∀ v, p v = 1 ∨ p v = -1) (hx : ∀ v, x v = 1 ∨ x v = -1) :
+    evalBag x ((frustratedLoop nodes edges cycles).map (gaugeTerm p)) = evalBag (fun v => p v * x v) (frustratedLoop nodes edges cycles)
+    ∧ evalBag p ((frustratedLoop nodes edges cycles).map (gaugeTerm p)) ≤ evalBag x ((frustratedLoop nodes edges cycles).map (gaugeTerm p)) := by
+  have hlin : ∀ t ∈ frustratedLoop nodes edges cycles, ∀ v c, t = PTerm.lin v c → c = 0 := by
+    intro t ht v c he
+    subst he
+    unfold frustratedLoop at ht
+    simp only [List.mem_append, List.mem_map, List.mem_flatMap] at ht
+    rcases ht with (⟨w, _, hw⟩ | ⟨e, _, he⟩) | ⟨cy, _, hc⟩
+    · injection hw with _ h2; exact h2.symm
+    · cases he
+    · exfalso
+      have hwalk : ∀ (sg : Nat → Rat) (r : List Label) (u : Label) (i : Nat), PTerm.lin v c ∉ walkBag sg u r i := by
+        intro sg r; induction r with
+        | nil => intro u i; simp [walkBag]
+        | cons a r ih => intro u i; simp only [walkBag, List.mem_cons, not_or]; exact ⟨(by intro h; cases h), ih a (i + 1)⟩
+      rcases cy with ⟨cl, _ | idx⟩ <;> cases cl <;> simp only [flPlanted, flUnplanted, List.mem_cons, List.mem_append, List.not_mem_nil] at hc
+      · rcases hc with hc | hc | hc
+        · exact hwalk _ _ _ _ hc
+        · cases hc
+        · exact hc
+      · rcases hc with hc | hc
+        · cases hc
+        · exact hwalk _ _ _ _ hc
+  have hg := gauge_eval p
+  constructor
+  · exact hg x _ hlin
+  · rw [hg x _ hlin, hg p _ hlin]
+    have h1 := frustrated_loop_planted_ground_state nodes edges cycles h (fun v => p v * x v) (fun v => pm_mul _ _ (hp v) (hx v))
+    have : (fun v => p v * p v) = (fun _ => (1 : Rat)) := by funext v; exact pm_sq _ (hp v)
+    rw [this]; exact h1.2
+
+/-- **anticluster structure**: all linear biases are 0, every coupler inside a tile is a draw `±1`, every coupler between
+    tiles is `±multiplier` (draw `i` goes to edge `i` of the iterators) -/
+theorem chimera_anticluster_couplers (m n t : Nat) (mult : Rat) (draws : List Nat) (term : PTerm Label)
+    (h : term ∈ chimeraFull m n t mult draws) :
+    (∃ v, term = PTerm.lin v 0)
+    ∨ (∃ u v c, term = PTerm.quad u v c ∧ (c = 1 ∨ c = -1))
+    ∨ (∃ u v c, term = PTerm.quad u v c ∧ (c = mult ∨ c = -mult)) := by
+  unfold chimeraFull at h
+  simp only [List.mem_append, List.mem_map] at h
+  rcases h with (⟨v, _, rfl⟩ | ⟨p, _, rfl⟩) | ⟨p, _, rfl⟩
+  · exact Or.inl ⟨_, rfl⟩
+  · exact Or.inr (Or.inl ⟨_, _, _, rfl, pm_draw _ _⟩)
+  · refine Or.inr (Or.inr ⟨_, _, _, rfl, ?_⟩)
+    rcases pm_draw draws ((if m ≠ 0 ∧ n ≠ 0 ∧ t ≠ 0 then chimeraTileEdges m n t else []).length + p.1) with h | h <;> rw [h] <;> grind
+
+/-- without `subgraph` nothing is refused; with one, exactly the nodes / edges outside the lattice are -/
+theorem chimera_anticluster_total (m n t : Nat) (mult : Rat) (draws : List Nat) :
+    chimeraAnticluster m n t mult none draws = some (chimeraFull m n t mult draws) := rfl
+
+theorem mimo_refuses_iff (nt : Nat) (y : List Rat) (F : List (List Rat)) :
+    mimoBpsk nt y F = none ↔ (F.length ≠ y.length ∨ ∃ row ∈ F, row.length ≠ nt) := by
+  unfold mimoBpsk; split <;> simp_all
+
+/-- **`mimo('BPSK', y, F)`, real channel: the energy is `‖y − F·x‖²`** — at every `x` (for a spin sample this is the energy of
+    the returned SPIN model: the diagonal of `FᵀF` goes to the offset), all sizes -/
+theorem mimo_bpsk_energy (nt : Nat) (y : List Rat) (F : List (List Rat)) (bag : List (PTerm Label)) (h : mimoBpsk nt y F = some bag)
+    (x : Label → Rat) : evalBag x bag = residual x nt y F := by
+  unfold mimoBpsk at h
+  split at h
+  · simp at h
+  · rename_i hs
+    simp only [Option.some.injEq] at h; subst h
+    have hlen : F.length = y.length := by
+      by_cases hl : F.length = y.length
+      · exact hl
+      · exact absurd (Or.inl hl) hs
+    rw [← mimoVal_residual x nt y F hlen]
+    simp only [evalBag_append, evalBag_rangeMap, evalBag_rangeFlatMap, denseRow_eval, evalBag, PTerm.eval, mimoVal]
+    grind
+
+theorem residual_nonneg (x : Label → Rat) (nt : Nat) : ∀ (y : List Rat) (F : List (List Rat)), 0 ≤ residual x nt y F := by
+  intro y F
+  induction F generalizing y with
+  | nil => cases y <;> simp [residual]
+  | cons row F ih =>
+    cases y with
+    | nil => simp [residual]
+    | cons y0 y =>
+      simp only [residual]
+      have h1 := ih y
+      have h2 : ∀ a : Rat, 0 ≤ a * a := fun a => by
+        rcases (Rat.le_total : (0 : Rat) ≤ a ∨ a ≤ 0) with h | h
+        · exact Rat.mul_nonneg h h
+        · have : 0 ≤ -a := by grind
+          have := Rat.mul_nonneg this this
+          grind
+      have := h2 (y0 - sumN nt (fun i => row.getD i 0 * x (iv i)))
+      grind
+
+/-- the `('binary', 'real')` channel with the recorded draws: the model is the one of `(y, F) = (F·v, F)`: never negative -/
+theorem mimo_binary_channel_energy (nr nt : Nat) (draws : List Nat) (bag : List (PTerm Label)) (h : mimoBinary nr nt draws = some bag)
+    (x : Label → Rat) :
+    evalBag x bag = residual x nt (matVec (binaryChannel nr nt draws) (bpskSymbols nt (draws.drop (nr * nt)))) (binaryChannel nr nt draws)
+    ∧ 0 ≤ evalBag x bag := by
+  have := mimo_bpsk_energy nt _ _ bag h x
+  exact ⟨this, by rw [this]; exact residual_nonneg x nt _ _⟩
+
+/-- **one-bit multiplier** (as repaired): with `n = 1` or `m = 1` there are no internal wires; the energy at a 0/1 sample is 0
+    iff every product bit below the top is the AND of its operand bits and the top product bit is 0 (i.e. `p = a·b`), and at
+    least 1 otherwise -/
+theorem multiplication_circuit_one_bit (n mArg : Nat) (bag : List (PTerm Label)) (h : mulCircuitBag n mArg = some bag)
+    (hone : n = 1 ∨ (if mArg = 0 then n else mArg) = 1) (x : Label → Rat) (hx : ∀ v, x v ∈ [(0 : Rat), 1]) :
+    (evalBag x bag = 0 ↔
+        ((∀ g ∈ mcOneBitGates n (if mArg = 0 then n else mArg), g.1.rel (g.2.map x) = true)
+          ∧ x (strLabel s!"p{n + (if mArg = 0 then n else mArg) - 1}") = 0))
+    ∧ (evalBag x bag ≠ 0 → 1 ≤ evalBag x bag) := by
+  unfold mulCircuitBag at h
+  split at h
+  · simp at h
+  · simp only [hone, if_true] at h
+    simp only [Option.some.injEq] at h; subst h
+    have hl : ∀ g ∈ mcOneBitGates n (if mArg = 0 then n else mArg), g.2.length = g.1.table.n ∧ g.1.naux = 0 := by
+      intro g hg
+      unfold mcOneBitGates at hg
+      simp only [List.mem_flatMap, List.mem_map, List.mem_range] at hg
+      obtain ⟨i, _, j, _, rfl⟩ := hg
+      exact ⟨rfl, rfl⟩
+    obtain ⟨h1, h2⟩ := gates_sum_zero_iff_all_satisfied _ hl x hx
+    have h0 : 0 ≤ evalBag x (circuitBag (mcOneBitGates n (if mArg = 0 then n else mArg))) := by
+      by_cases hz : evalBag x (circuitBag (mcOneBitGates n (if mArg = 0 then n else mArg))) = 0
+      · rw [hz]; exact Rat.le_refl
+      · have := h2 hz; grind
+    have hp := hx (strLabel s!"p{n + (if mArg = 0 then n else mArg) - 1}")
+    simp only [List.mem_cons, List.not_mem_nil, or_false] at hp
+    simp only [evalBag_append, evalBag, PTerm.eval]
+    constructor
+    · constructor
+      · intro he
+        rcases hp with hp | hp
+        · rw [hp] at he ⊢; exact ⟨h1.1 (by grind), rfl⟩
+        · rw [hp] at he; exfalso; grind
+      · rintro ⟨hg, hp0⟩
+        rw [hp0, h1.2 hg]; grind
+    · intro hne
+      by_cases hz : evalBag x (circuitBag (mcOneBitGates n (if mArg = 0 then n else mArg))) = 0
+      · rcases hp with hp | hp
+        · rw [hp, hz] at hne; exfalso; grind
+        · rw [hp, hz]; grind
+      · have := h2 hz
+        rcases hp with hp | hp <;> rw [hp] <;> grind
+
+/-- with two or more bits per argument `mulCircuitBag` is the adder circuit of `mulCircuit` -/
+theorem multiplication_circuit_bag_eq (n m : Nat) (hn : 2 ≤ n) (hm : 2 ≤ m) :
+    mulCircuitBag n m = (mulCircuit n m).map circuitBag := by
+  unfold mulCircuitBag
+  have h1 : ¬ n < 1 := by omega
+  have h2 : ¬ m = 0 := by omega
+  have h3 : ¬ (n = 1 ∨ m = 1) := by omega
+  simp only [h1, h2, h3, if_false]
+
+example : (acClique 8).isSome = true := by decide +kernel
+example : acLoops 10 = none := by decide +kernel
+example : LoopsOK [([.str "a", .str "b", .str "c"], some 1), ([.int 0, .int 1, .int 2, .int 3], none)] := by
+  intro c hc; simp only [List.mem_cons, List.not_mem_nil, or_false] at hc
+  rcases hc with rfl | rfl
+  · exact ⟨by decide, fun idx h => by cases h; decide⟩
+  · exact ⟨by decide, fun idx h => by cases h⟩
+example : (chimeraAnticluster 1 2 1 3 none [0, 1, 1]).map List.length = some 7 := by decide +kernel
+example : (mimoBpsk 2 [1, 2] [[1, -1], [1, 1]]).isSome = true := by decide +kernel
+example : (mulCircuitBag 3 1).isSome = true := by decide +kernel
 
 end C17
